@@ -264,6 +264,14 @@ impl<C: Config, Q: Query> Snapshot<C, Q> {
             return CalleeCheckDecision::NoNeed;
         }
 
+        // The previous execution was cut short at this dependency (it closed
+        // a dependency cycle, so the callee never returned a value and nothing
+        // was observed): there is nothing to compare against, the query has
+        // to be executed again.
+        if forward_edge_observation.0.get(callee).is_none() {
+            return CalleeCheckDecision::Recompute;
+        }
+
         let kind = engine.get_query_kind(callee).await;
 
         // NOTE: if the callee is an input (explicitly set), it's impossible
